@@ -70,6 +70,21 @@ CHECKS["C20"] = dict(category="model_checking",
     design_ref="5 (C20), 4.7", technique="TLA+ reader machine + header law (TLC exhaustive over field classes) + replay into the real decoders + trace validation of round trips and CLI outcomes",
     note="payload fidelity is the identity law only; memory clause by counting allocator (library) and RLIMIT_AS 1 GiB (CLI)", engine="E")
 
+_BISYNC_TEXT = ("TLC model-checks the bisync machine (user edits, archive faults, runs; RunResult as a fold that mutates (a, b, common) "
+                "like `apply`) with the listed properties as invariants; the harness explores the IMPLEMENTATION's own transition graph "
+                "over the same universe with the real `copia bisync` (restoring states on disk incl. the archive bytes the code wrote) "
+                "and TLC validates every edge: Conform (= RunResult; the graphs coincide state for state) and Monitor (property formulas "
+                "on the observed pair). Closed graph => the exhaustive verdict transfers to the code for every history over the universe.")
+CHECKS["C02"] = dict(category="model_checking", text=_BISYNC_TEXT + " C02: NoLoss with ghost `last`.", design_ref="5 (C02), 4.5",
+    technique="TLA+ state machine (TLC exhaustive) + implementation-graph exploration of the real CLI with per-edge refinement and property monitoring by TLC",
+    note="universe: 1 base path, conflict names to depth 2 (+ -1 suffix), 2 contents; pair id in restored archives substituted per worker", engine="G")
+CHECKS["C06"] = dict(category="model_checking", text=_BISYNC_TEXT + " C06: Converged, archive = tree, idempotence on observed fixpoints, ConflictShape, and a seeded share of edges re-executed with re-drawn mtimes and with the roots named in the other order.", design_ref="5 (C06), 4.5, A3",
+    technique="TLA+ state machine (TLC exhaustive) + implementation-graph exploration with per-edge refinement, plus differential re-execution under mtime / argument-order changes",
+    note="as C02; content 1's BLAKE3 has a leading 0 nibble so that name formatting is exercised", engine="G")
+CHECKS["C07"] = dict(category="model_checking", text=_BISYNC_TEXT + " C07: every concrete fault kind (absent, zero-length, truncation points, garbage, wrong shape, format_version 0/2, foreign pair, other-order archive copied in, only .bak/.tmp) injected on reachable trusted states; NoBaseNoDelete on the observed pair and equality with RunResult(untrusted).", design_ref="5 (C07)",
+    technique="TLA+ ArchiveFault action + NoBaseNoDelete invariant (TLC) + fault injection on the real archive file for reachable states, edges validated by TLC",
+    note="as C02; faults applied to the archive file the real code wrote", engine="G")
+
 NOT_BUILT = "check not built yet in this round (planned in DESIGN.md section 5)"
 
 
@@ -102,6 +117,9 @@ def main():
             "add_only": True,
         },
         "engines": [
+            {"name": "G", "path": "/verif/spec/Bisync*.tla + /verif/lib/bisync_graph.py",
+             "serves_properties": ["C02", "C06", "C07", "C15"],
+             "kind_free_text": "implementation transition graph explored with the real CLI; edges validated by TLC (Conform + Monitor)"},
             {"name": "E", "path": "/verif/spec + /verif/harness/src/bin/vh_plan.rs, vh_lib.rs",
              "serves_properties": ["C01", "C05", "C16", "C17", "C18", "C19", "C20"],
              "kind_free_text": "TLC-enumerated case analysis replayed into the real functions; recorded results validated by TLC trace specs"},
